@@ -59,7 +59,7 @@ def run(chk, replay=None):
     chk.cov["shapes"] = nshapes
     chk.cov["ops"] = {k: {"events": v[0], "calls": v[1]} for k, v in sorted(ops.items())}
     missing = [o for o in HEAVY if o not in ops]
-    if missing and not replay:
+    if missing and not replay and not res["rejects"]:
         raise core.ToolError("routines without any event: %s" % missing)
     for e in evs[:: max(1, len(evs) // 5)]:
         chk.sample({k: e[k] for k in e if k in ("op", "case", "p", "nps")})
